@@ -244,6 +244,26 @@ def check(prog, run):
                                    ("is_subtype(%s, %s)" % (w[1], w[2])) if w[0] == "rec" else "False"))
                     break
 
+    # ---- V7 kind predicates
+    r = run.rule("V7", "the validator tests member kinds with the exact class the specification names: union members and the three root "
+                       "types against ObjectType, implemented interfaces against InterfaceType — not a base class such as "
+                       "GraphQLCompositeType / NamedType, which also admits interfaces and unions", 2)
+    KIND_SITES = {"validate_union_members": {"ObjectType"}, "validate_root_types": {"ObjectType"}}
+    for mname, want in KIND_SITES.items():
+        m = sv.methods.get(mname)
+        if m is None:
+            raise AnalysisError("C13.V7: SchemaValidator.%s not found" % mname)
+        run.looked_at(m)
+        tests = [n for n in own_nodes(m.node) if isinstance(n, ast.Call) and isinstance(n.func, ast.Name) and n.func.id == "isinstance" and len(n.args) == 2]
+        kinds = [({x.id for x in ast.walk(n.args[1]) if isinstance(x, ast.Name)}, n) for n in tests]
+        r.instance("%s tests kinds %s" % (mname, [sorted(k) for k, _n in kinds]))
+        if not kinds:
+            run.report(r, "%s:SchemaValidator.%s:no-kind-test" % (VAL, mname), m.where(), "%s performs no isinstance test on its members" % mname)
+        for k, n in kinds:
+            if k != want:
+                run.report(r, "%s:SchemaValidator.%s:kind(%s)" % (VAL, mname, "|".join(sorted(k))), m.where(n),
+                           "%s accepts members that are instances of %s, the specification requires %s" % (mname, "/".join(sorted(k)), "/".join(sorted(want))))
+
     # ---- V5 loops over members run to completion
     r = run.rule("V5", "no member-checking loop (one whose body reports or delegates to validate_*/check_*) in a SchemaValidator method ends "
                        "early: no `break` and no `return` inside its body (a violation "
